@@ -5,7 +5,7 @@ CONSTANTS
   BlockSecs = 1
   MaxB = 3
   MaxEv = 3
-  MaxPerBlock = 1
+  MaxPerBlock = 2
   MaxH = 2
   MaxClock = 1
   PageSize = 2
@@ -13,6 +13,7 @@ CONSTANTS
   MaxFail = 0
   MaxReq = 1
   MaxLook = 1
+  SharedTx = TRUE
   Boots = FALSE
   Profile = "reobs"
   Mainnets = {TRUE, FALSE}
